@@ -145,6 +145,10 @@ def mk_case(rng, agg, fam, n, modes=('stream', 'reduce'), mode=None, km=None):
         n2 = rng.choice([0, 1, 2, 5, n]) if n <= 300 else 5
         case['ys'] = [enc(v) for v in gen_values(rng, rng.choice(['pool', 'normal', fam]), n2)]
         case['pattern'] = rng.choice([1, 2, 3])   # ys items are interleaved after every `pattern` xs items
+        # half of them through two levels of group_by on a plain source (the two series are two OUTER groups whose inner
+        # groups have EQUAL keys and are alive together) instead of two keys of a hand-made MuxObservable
+        import zlib as _z
+        case['nest'] = bool(_z.crc32(repr((case['xs'][:3], case['ys'][:3], agg)).encode()) % 2) and len(case['xs']) > 0 and len(case['ys']) > 0
     return case
 
 
@@ -264,6 +268,8 @@ def one_run(case, reduce):
     # two keys of one MuxObservable, interleaved
     ys = [dec(v) for v in case['ys']]
     yitems = [wrap(case['km'], y, j) for j, y in enumerate(ys)]
+    if case.get('nest'):
+        return nested_run(case, op, items, yitems, reduce)
     ev = [rs.OnCreateMux((1,)), rs.OnCreateMux((2,))]
     yi, p = 0, case['pattern']
     for j, it in enumerate(items):
@@ -299,6 +305,43 @@ def one_run(case, reduce):
             'shape2': shapes[2],
             'end': end if errs[1] is None else 'error:' + errs[1],
             'end2': end if errs[2] is None else 'error:' + errs[2]}
+
+
+def nested_run(case, op, items, yitems, reduce):
+    """the two series as two outer groups of group_by(series, group_by(constant, aggregate)) on a plain source"""
+    import rx
+    import rxsci as rs
+    tagged, yi, p = [], 0, case['pattern']
+    for j, it in enumerate(items):
+        tagged.append((1, it))
+        if (j + 1) % p == 0 and yi < len(yitems):
+            tagged.append((2, yitems[yi]))
+            yi += 1
+    while yi < len(yitems):
+        tagged.append((2, yitems[yi]))
+        yi += 1
+    pipe = rs.state.with_memory_store(rx.pipe(
+        rs.ops.group_by(lambda t: t[0], rx.pipe(
+            rs.ops.group_by(lambda t: 'same', rx.pipe(rs.ops.map(lambda t: t[1]), op))))))
+    r = run_timed(pipe, tagged)
+    outs, shapes = {1: [], 2: []}, {1: True, 2: True}
+    for (tag, _), step in zip(tagged, r['steps']):
+        outs[tag] += step
+        shapes[tag] = shapes[tag] and len(step) == (0 if reduce else 1)
+    order = []
+    for tag, _ in tagged:
+        if tag not in order:
+            order.append(tag)
+    fin = list(r['final'])
+    if reduce:
+        ok = len(fin) == len(order)
+        for tag, v in zip(order, fin):
+            outs[tag].append(v)
+        shapes = {1: shapes[1] and ok, 2: shapes[2] and ok}
+    else:
+        shapes = {1: shapes[1] and not fin, 2: shapes[2] and not fin}
+    return {'out': [enc(v) for v in outs[1]], 'out2': [enc(v) for v in outs[2]], 'shape': shapes[1] and not r['sub'],
+            'shape2': shapes[2] and not r['sub'], 'end': r['end'], 'end2': r['end']}
 
 
 def pow_hints(xs, stream):
